@@ -33,13 +33,22 @@ def run_check(pid):
     return p.returncode, kind
 
 
+def run_all(pids):
+    """all claimed checks; MATRIX_JOBS of them at a time (builds are serialised by the checks' own lock)"""
+    jobs = int(os.environ.get("MATRIX_JOBS", "1"))
+    if jobs <= 1:
+        return {pid: run_check(pid) for pid in pids}
+    from concurrent.futures import ThreadPoolExecutor
+    with ThreadPoolExecutor(jobs) as ex:
+        return dict(zip(pids, ex.map(run_check, pids)))
+
+
 def main():
     ids = sys.argv[1:] or sorted(os.listdir(os.path.join(VERIF, "seeded")))
     pids = claimed()
     res = {}
     base = {}
-    for pid in pids:
-        base[pid] = run_check(pid)
+    base = run_all(pids)
     res["unchanged"] = base
     print("unchanged", base, flush=True)
     for sid in ids:
@@ -52,12 +61,12 @@ def main():
             continue
         row = {}
         try:
-            for pid in pids:
-                row[pid] = run_check(pid)
+            row = run_all(pids)
         finally:
             subprocess.run(["git", "-C", REPO, "checkout", "--", "."])
         res[sid] = {"target": meta["property"], "checks": row}
         print(sid, meta["property"], {k: v for k, v in row.items() if v[0] != 0}, flush=True)
+        json.dump(res, open(os.path.join(VERIF, "matrix_out.json"), "w"), indent=1)
     json.dump(res, open(os.path.join(VERIF, "matrix_out.json"), "w"), indent=1)
 
 
